@@ -11,6 +11,7 @@ import (
 
 	"github.com/TarsCloud/TarsGo/tars"
 	"github.com/TarsCloud/TarsGo/tars/protocol/res/requestf"
+	"github.com/TarsCloud/TarsGo/tars/transport"
 	"github.com/TarsCloud/TarsGo/tars/util/tools"
 
 	"verifsim/refcodec"
@@ -20,7 +21,22 @@ import (
 	"verifsim/simrt"
 )
 
-func init() { scen.Register("c11", func() scen.Scenario { return &S{} }) }
+func init() {
+	scen.Register("c11", func() scen.Scenario { return &S{} })
+	scen.Register("c11r", func() scen.Scenario { return &S{realPeer: true} })
+}
+
+// echoDisp is the servant of the real-server variant: it echoes the request buffer.
+type echoDisp struct{ s *S }
+
+func (d *echoDisp) Dispatch(ctx context.Context, imp interface{}, req *requestf.RequestPacket, rsp *requestf.ResponsePacket, withCtx bool) error {
+	*rsp = requestf.ResponsePacket{IVersion: req.IVersion, IRequestId: req.IRequestId, SBuffer: req.SBuffer, CPacketType: req.CPacketType}
+	d.s.mu.Lock()
+	d.s.replies[string(tools.Int8ToByte(req.SBuffer))] = replyRec{conn: -1, at: simrt.Elapsed()}
+	d.s.mu.Unlock()
+	simrt.Event("real server executes %s (id %d)", tools.Int8ToByte(req.SBuffer), req.IRequestId)
+	return nil
+}
 
 type call struct {
 	caller, k int
@@ -53,6 +69,8 @@ type S struct {
 	finished bool
 	replies  map[string]replyRec // payload -> where/when the server answered
 	downFrom, downTo time.Duration
+	realPeer bool
+	downs    [][2]time.Duration // further windows in which the endpoint was not reachable
 }
 
 type replyRec struct {
@@ -80,20 +98,24 @@ func (s *S) Run(c *scen.Ctx) {
 	simnet.Cfg.Delay = simrt.Draw(3, "c11.delay") == 2
 	s.timeout = 3000
 	comm := world.NewClient(world.ClientOpts{InvokeTimeoutMs: s.timeout})
-	srv, err := world.StartServer(addr, func(sc *world.SrvConn, req *refcodec.Request, raw []byte) { s.onRequest(c, sc, req) })
-	if err != nil {
-		c.Inconclusive("listen: %v", err)
-		return
+	if s.realPeer {
+		s.runRealPeer(c)
+	} else {
+		srv, err := world.StartServer(addr, func(sc *world.SrvConn, req *refcodec.Request, raw []byte) { s.onRequest(c, sc, req) })
+		if err != nil {
+			c.Inconclusive("listen: %v", err)
+			return
+		}
+		srv.OnAccept = func(sc *world.SrvConn) bool { s.onAccept(c, sc); return true }
+		s.srvs = append(s.srvs, srv)
 	}
-	srv.OnAccept = func(sc *world.SrvConn) bool { s.onAccept(c, sc); return true }
-	s.srvs = append(s.srvs, srv)
 	s.prx = world.Proxy(comm, "App.Srv.Obj@tcp -h 10.0.0.9 -p 1100 -t 3000")
 	ncallers := 1 + simrt.Draw(2, "c11.callers")
 	per := 2 + simrt.Draw(7, "c11.per")
 	c.Describe("callers", ncallers)
 	c.Describe("calls_per_caller", per)
 	gaps := []int{0, 1, 10, 100, 300, 900, 1100, 2500}
-	if simrt.Draw(6, "c11.restart") == 5 {
+	if !s.realPeer && simrt.Draw(6, "c11.restart") == 5 {
 		at := ms(simrt.Draw(3000, "c11.restartat"))
 		simrt.GoNamed("restarter", func() {
 			simrt.Sleep(at)
@@ -241,7 +263,7 @@ func (s *S) onRequest(c *scen.Ctx, sc *world.SrvConn, req *refcodec.Request) {
 func (s *S) Check(c *scen.Ctx, res *simrt.Result) {
 	s.mu.Lock()
 	defer s.mu.Unlock()
-	if len(s.srvs) == 0 {
+	if len(s.srvs) == 0 && !s.realPeer {
 		return
 	}
 	pairs := simnet.Pairs()
@@ -257,6 +279,21 @@ func (s *S) Check(c *scen.Ctx, res *simrt.Result) {
 			c.Fail("C11", "write-on-closed-connection", "TarsClient.send", "the client wrote %d time(s) to %s at a later time than it had closed that connection itself (closed at %v)", pr.Client.LateWritesAfterClose, pr, pr.Client.ClosedAt)
 		}
 	}
+	// where each connection's reconnect notification (id 0, "_reconnect_") ends in the server-to-client stream
+	noticeEnd := map[int]int{}
+	for _, pr := range pairs {
+		if pr.Addr != addr {
+			continue
+		}
+		off := 0
+		frames, _, _ := refcodec.SplitFrames(pr.S2C.Bytes(), 0)
+		for _, f := range frames {
+			off += len(f)
+			if r, err := refcodec.DecodeResponse(f); err == nil && r.RequestID == 0 && r.ResultDesc == "_reconnect_" {
+				noticeEnd[pr.ID] = off
+			}
+		}
+	}
 	// (3) no dial while the latest connection is healthy
 	var prev *simnet.ConnPair
 	for _, pr := range pairs {
@@ -266,9 +303,9 @@ func (s *S) Check(c *scen.Ctx, res *simrt.Result) {
 		if prev != nil {
 			ended, _, _ := prev.S2C.Ended()
 			noticeSeen := false
-			if p := s.plans[prev.ID]; p != nil && p.noticeEnd > 0 {
+			if ne := noticeEnd[prev.ID]; ne > 0 {
 				for _, r := range prev.S2C.Reads {
-					if r.End >= p.noticeEnd && r.Step <= pr.DialStep {
+					if r.End >= ne && r.Step <= pr.DialStep {
 						noticeSeen = true
 					}
 				}
@@ -276,9 +313,9 @@ func (s *S) Check(c *scen.Ctx, res *simrt.Result) {
 			// after a reconnect notification the adapter replaces its TarsClient (the old one
 			// closes gracefully): connections of both may coexist, which is the protocol
 			for _, q := range pairs {
-				if p := s.plans[q.ID]; p != nil && p.noticeEnd > 0 && q.Addr == addr {
+				if ne := noticeEnd[q.ID]; ne > 0 && q.Addr == addr {
 					for _, r := range q.S2C.Reads {
-						if r.End >= p.noticeEnd && r.Step <= pr.DialStep {
+						if r.End >= ne && r.Step <= pr.DialStep {
 							noticeSeen = true
 						}
 					}
@@ -300,6 +337,16 @@ func (s *S) Check(c *scen.Ctx, res *simrt.Result) {
 		}
 		if s.downFrom >= 0 && cl.t1 >= s.downFrom && cl.t0 <= s.downTo+ms(1) {
 			continue // overlapped the restart: not counted
+		}
+		overl := false
+		for _, d := range s.downs {
+			if cl.t1 >= d[0] && cl.t0 <= d[1]+ms(1) {
+				overl = true
+			}
+		}
+		if overl {
+			c.Count("probe.call_during_server_restart", 1)
+			continue
 		}
 		// precondition at the moment of the call: every earlier connection is either
 		// healthy or closed with the close already observed by the client's reader
@@ -384,5 +431,54 @@ func (s *S) Check(c *scen.Ctx, res *simrt.Result) {
 		if dur > ms(s.timeout)/2 {
 			c.Fail("C11", "call-slow", "TarsInvoke", "call %d/%d issued at %v %s took %v (time-out %dms): it waited instead of using a working connection", cl.caller, cl.k, cl.t0, state, dur, s.timeout)
 		}
+	}
+}
+
+// runRealPeer: the peer is a real TarsServer (pool 0) that closes idle connections and is
+// shut down gracefully and restarted at drawn times. Between the end of a shutdown and the
+// restart the endpoint is not reachable; calls overlapping such a window are not judged.
+func (s *S) runRealPeer(c *scen.Ctx) {
+	idle := []time.Duration{600 * time.Second, 700 * time.Millisecond, 1500 * time.Millisecond, 2 * time.Second}[simrt.Draw(4, "c11r.idle")]
+	readTO := []time.Duration{100 * time.Millisecond, 300 * time.Millisecond}[simrt.Draw(2, "c11r.readto")]
+	c.Describe("peer", "real TarsServer")
+	c.Describe("server_idle_timeout", idle.String())
+	start := func() *transport.TarsServer {
+		conf := &transport.TarsServerConf{Proto: "tcp", Address: addr, QueueCap: 1000, AcceptTimeout: 500 * time.Millisecond,
+			IdleTimeout: idle, ReadTimeout: readTO}
+		srv, _ := tars.VerifNewServer(&echoDisp{s}, nil, true, conf)
+		if err := srv.Listen(); err != nil {
+			c.Inconclusive("listen: %v", err)
+			return nil
+		}
+		simrt.GoNamed("realserver", func() { srv.Serve() })
+		return srv
+	}
+	srv := start()
+	if srv == nil {
+		return
+	}
+	nrestart := simrt.Draw(3, "c11r.restarts")
+	if nrestart > 0 {
+		at := ms(200 + simrt.Draw(3000, "c11r.at"))
+		gap := ms([]int{0, 30, 500}[simrt.Draw(3, "c11r.gap")])
+		simrt.GoNamed("restarter", func() {
+			for i := 0; i < nrestart && srv != nil; i++ {
+				simrt.Sleep(at)
+				c.Count("fault.graceful_shutdown_and_restart", 1)
+				simrt.Event("graceful shutdown of the real server begins")
+				from := simrt.Elapsed()
+				ctx, cancel := context.WithTimeout(context.Background(), 5*time.Second+113*time.Microsecond)
+				srv.Shutdown(ctx)
+				cancel()
+				// the process exits: the listener goes away, remaining connections are reset
+				simnet.CloseListener(addr)
+				simrt.Sleep(gap)
+				srv = start()
+				s.mu.Lock()
+				s.downs = append(s.downs, [2]time.Duration{from, simrt.Elapsed()})
+				s.mu.Unlock()
+				simrt.Event("real server restarted")
+			}
+		})
 	}
 }
